@@ -225,3 +225,12 @@ extend("C11", "END acknowledged only after the bundle was handed up")
 extend("C16", "restartable adapters (channels closed on the way down are re-created by Start), removal serialised with registration, failed Start releases its connection",
        "An adapter can be started again after a stop; an element is removed from the registry only under the registration lock; a timed-out TCPCLv4 Start dials again.")
 extend("C20", "edge cost sign guard")
+
+
+# ---- seeding round 6 (DESIGN.md §20)
+extend("C05", "file-before-index shared with C08")
+extend("C07", "dispatch reservation covers local delivery (shared with C05/C13)")
+extend("C08", "superseded fragment files removed only after the record update succeeded")
+extend("C12", "single-fragment transmissions: finished state from the first fragment's end mark")
+extend("C13", "previous node looked for on every path of NotifyNewBundle; peer identity written at set-up only")
+extend("C18", "peer identity written at set-up only (the failed peer can be found again after the session was lost)")
